@@ -213,8 +213,8 @@ pub fn scenarios(tier: &str) -> Vec<Scenario> {
     v.push(Scenario::new("trees_depth1_nodes3_root_is_migrate_or_sudo", &["ok", "err", "ok_with_data"], || {
         run_from(&Opts { max_depth: 1, max_nodes: 3, max_children: 2, vary_output: true, vary_ids: false, reply_subs: false, inst_leaves: false }, true)
     }));
-    v.push(Scenario::new("trees_depth1_nodes2_contracts_registered_through_empty_adapters", &["ok", "err", "ok_with_data", "custom_event"], || {
-        run_with(&Opts { max_depth: 1, max_nodes: 2, max_children: 1, vary_output: true, vary_ids: false, reply_subs: false, inst_leaves: false }, false, true)
+    v.push(Scenario::new("trees_depth1_nodes2_contracts_registered_through_empty_adapters_ids_0_1_max", &["ok", "err", "ok_with_data", "custom_event"], || {
+        run_with(&Opts { max_depth: 1, max_nodes: 2, max_children: 1, vary_output: true, vary_ids: true, reply_subs: false, inst_leaves: false }, false, true)
     }));
     v.push(Scenario::new("instantiate_sudo_migrate_entry_points", &["instantiate", "sudo", "migrate"], entry_points));
     v.push(Scenario::new("trees_nodes3_replies_emitting_submessages_instantiate_leaves", &["ok", "err", "ok_with_data"], || {
